@@ -66,6 +66,21 @@ Theorem c16_wait_covers_flush_paths : forall cf s i snap s', reachable cf s ->
 Proof. exact wait_return_none_entered. Qed.
 Print Assumptions c16_wait_covers_flush_paths.
 
+(* stat.Metrics report delivery (C16.Model.wstep: every Execute of every Metrics instance, and SetReportWriter,
+   go through the one blocking writeLock): for every schedule, every report is either still in the hands of
+   its (waiting or writing) thread or has reached the writer exactly once -- a busy lock loses nothing *)
+Theorem c16_reports_conserved : forall x thr sched s',
+  wrun sched (mkw None thr []) = Some s' ->
+  (cnt x (w_out s') + wsum x (w_thr s') = wsum x thr)%nat.
+Proof. exact reports_conserved. Qed.
+Print Assumptions c16_reports_conserved.
+
+Theorem c16_reports_all_delivered : forall x thr sched s',
+  wrun sched (mkw None thr []) = Some s' -> Forall (fun t => t = WDone) (w_thr s') ->
+  cnt x (w_out s') = wsum x thr.
+Proof. exact reports_all_delivered. Qed.
+Print Assumptions c16_reports_all_delivered.
+
 (* the WaitGroup counter never goes negative *)
 Theorem c16_no_panic : forall cf s, reachable cf s -> s_panicked s = false.
 Proof. exact no_panic. Qed.
@@ -144,6 +159,13 @@ Example c16_ex_racetick :
   let s := seq_run (mkcfg false 1 (fun _ => 0) 1000000000) 5 [SAdd 1; STick; SAdvance 11000000000; SRaceTick 2] in
   s_guarded s = true /\ s_executed s = [[1%nat]; [2%nat]] /\ s_returned s = [2%nat; 1%nat].
 Proof. vm_compute. repeat split; reflexivity. Qed.
+
+(* two reports and a SetReportWriter contending for the write lock: both reports arrive, once *)
+Example c16_ex_reports :
+  wrun [0; 1; 2; 0; 1; 1; 2; 2]%nat (mkw None [WWant 7; WWant 9; WWantSet] []) = None /\
+  exists s, wrun [0; 0; 2; 2; 1; 1]%nat (mkw None [WWant 7; WWant 9; WWantSet] []) = Some s /\
+            w_out s = [7%nat; 9%nat] /\ w_thr s = [WDone; WDone; WDone].
+Proof. split; [vm_compute; reflexivity|]. eexists. split; [vm_compute; reflexivity|]. split; reflexivity. Qed.
 
 (* the premise of the Wait theorems is reachable, also with a snapshot task in hand-over *)
 Example c16_ex_wait_premise :
